@@ -95,6 +95,7 @@ def run(ctx, chk):
     chk.rule("C10.R3", "numeric holes stay within the downstream conversion's range", floor=300)
     chk.rule("C10.R4", "no label name can lex as a downstream keyword", floor=3)
     chk.rule("C10.R5", "every fallible downstream action has an upstream guarantee", floor=15)
+    chk.rule("C10.R7", "no downstream error return depends on the machine state (the assembler sees the text only)", floor=2)
     chk.rule("C10.R6", "driver dispatch covers every INT the interpreter can return", floor=1)
 
     ems, undec = emissions(ctx, E)
@@ -170,6 +171,7 @@ def run(ctx, chk):
             else:
                 chk.ok("C10.R5", f"{w}:{nt}", GUARANTEES[key])
     structural_guarantees(ctx, chk, E, down_eval)
+    machine_state_errors(ctx, chk)
 
     # ---- R6 driver dispatch
     drv = ctx.program.find("bin", "driver::driver::CMDDriver::run")
@@ -352,6 +354,71 @@ def collect_int_cmps(node, vals):
     elif isinstance(node, list):
         for v in node:
             collect_int_cmps(v, vals)
+
+
+def machine_state_errors(ctx, chk):
+    """R7.  What the assembler can guarantee about a line it emits is a property of the text of that line.  A downstream
+    action whose `Err(..)` return is control dependent on a branch that reads the machine (registers, memory: anything
+    reached through the `vm` parameter) fails or not depending on the run, so no upstream check can make it unreachable.
+    Dependence: flow-insensitive closure from the `vm` parameter over the action's MIR (may); feasibility of the Err arm:
+    abstract run of the production with free numerals and a free machine.  Both must say yes for a report."""
+    from cfgtools import may_depend, operand_locals
+    from units import run_production
+    from absint import Unsupported
+    for w in ("print", "data_parser", "interpreter"):
+        G = ctx.gram(w)
+        for nt_data in G.g["nonterminals"]:
+            nt = nt_data["name"]
+            for k, p in enumerate(nt_data["productions"]):
+                ua = G.main_user_action(p["action"])
+                if not ua.get("fallible"):
+                    continue
+                fn = G.action_fn(ua["idx"])
+                label = f"{w}: {G.prod_label(nt, k)}"
+                if fn is None:
+                    chk.undecided_("C10.R7", label, "no MIR for the action")
+                    continue
+                vm_locals = {i for i in range(1, fn["argc"] + 1) if re.search(r"\bVM\b", fn["locals"][i]["ty"] or "")}
+                if not vm_locals:
+                    chk.ok("C10.R7", label, "the action has no machine parameter", nontrivial=False)
+                    continue
+                cfg = M.CFG(fn)
+                tainted = may_depend(fn, vm_locals)
+                err_blocks = []
+                for bi, bb in enumerate(fn["blocks"]):
+                    if bb.get("cleanup"):
+                        continue
+                    for s_ in bb["stmts"]:
+                        if s_[0] == "assign" and s_[1]["l"] == 0 and not s_[1]["p"] and s_[2][0] == "agg" and "Result" in (s_[2][1].get("name") or "") and s_[2][1].get("variant") == 1:
+                            err_blocks.append(bi)
+                if not err_blocks:
+                    chk.undecided_("C10.R7", label, "the action's error return is not a literal Err(..) (propagated from a call)")
+                    continue
+                dep_branch = None
+                for bi in err_blocks:
+                    for a in cfg.control_deps.get(bi, ()):
+                        t = M.term(fn["blocks"][a])
+                        if t[0] == "switch" and operand_locals(t[1]) & tainted:
+                            dep_branch = (bi, a)
+                if dep_branch is None:
+                    chk.ok("C10.R7", label, f"{len(err_blocks)} Err return(s), none control dependent on a value read from the machine")
+                    continue
+                try:
+                    I, st, v, r = run_production(ctx, w, nt, k)
+                    outs = {o[3] for o in r.outcomes if o[0] == ()}
+                except Unsupported as e:
+                    chk.undecided_("C10.R7", label, f"feasibility of the Err arm not decided: {e}")
+                    continue
+                if outs and outs <= {"ok"}:
+                    chk.ok("C10.R7", label, "the machine-dependent Err arm is infeasible")
+                elif not outs:
+                    chk.undecided_("C10.R7", label, "outcome of the abstract run not recorded")
+                else:
+                    line = fn["blocks"][dep_branch[1]]["term"].get("line")
+                    chk.violation("C10.R7", label, "error-depends-on-machine-state",
+                                  f"{label}: the action returns Err(..) under a branch that depends on the machine state (registers/memory read through `vm`): whether an emitted line is "
+                                  f"accepted then depends on the run, which no check in the assembler can exclude -> 'Internal Error : Should not have reached here'",
+                                  f"{G.g['file']}:{p['line']}", witness=f"branch at line {line} of the generated action; machine state chosen so that it is taken")
 
 
 def structural_guarantees(ctx, chk, E, down_eval):
